@@ -38,7 +38,7 @@ PROP = dict(
                 "CollectReward mints exactly the deposit, deletes it, a second collect fails; minted + deposited = credited over any history. "
                 "Modelled: computePillarRewardForEpoch, computeDetailedPillarReward, computeStakeRewardsForEpoch, computeSentinelRewardsForEpoch, the update loops, "
                 "CanPerformEpochUpdate/checkAndPerformUpdateEpoch, addReward, CollectRewardMethod.ReceiveBlock; emission tables, percentages and weight functions are translated from source. "
-                "Finding: updateLiquidityRewards skips an epoch when more than MaxEpochsPerUpdate/2 are due (refuted + partial theorem).",
+                "Fixed defect (a732e8e): updateLiquidityRewards skipped an epoch when more than MaxEpochsPerUpdate/2 were due; the fixed loop is modelled (C11_liquidity_cursor), the old one kept as C11_liquidity_cursor_refuted.",
     assumptions=["epoch statistics are well-formed (produced <= expected per pillar, weights sum to at most the total weight, one entry per name): "
                  "a hypothesis of C11_pillar_bounded, checked on every statistics object the real consensus module produced during the run",
                  "times are below 2^62 seconds and the epoch ticker's nanosecond arithmetic does not overflow (cursor_ok)",
@@ -52,6 +52,6 @@ META = dict(
     design_ref="DESIGN.md section 5, C11",
     note="Trusted: Coq kernel; go2coq/constdump; the harness. Epoch statistics (consensus/points.go) enter as observed inputs with a well-formedness hypothesis that the harness checks on the real node; "
          "node-to-node agreement of the statistics cache is explored by the harness only. Liquidity-stake rewards after the bridge spork are covered by the generic split theorem, not yet by a model of computeLiquidityStakeRewardsForEpoch. "
-         "Known finding: updateLiquidityRewards advances the cursor past an unrewarded epoch when more than 10 epochs are due.",
+         "Fixed in /repo a732e8e: updateLiquidityRewards advanced the cursor past an unrewarded epoch when more than 10 epochs were due.",
     technique="Coq proof (induction over lists/histories, lia/nia with explicit int64/uint64 wrap) over translated source + differential correspondence check on real contract code",
 )
